@@ -322,6 +322,34 @@ def rule_slack(ctx, repo):
               "slack membership test changed (status or bus mapping)", f.W())
 
 
+def rule_search_bounds(ctx, repo):
+    """Island search: the start-bus cursor is advanced past isolated buses inside `while True`; it is used as a row index of the n x n
+    adjacency matrix, so on every path from an increment of the cursor to that subscript a test against the number of buses (or the
+    number of non-isolated buses) is passed -- otherwise a pattern in which every remaining bus is isolated indexes past the end."""
+    f = F.method(repo, "System", "connectivity", SYSTEM)
+    g = f.g
+    subs = [n for n in g.nodes() if g.data(n)["kind"] == "stmt" and any(
+        isinstance(x, ast.Subscript) and isinstance(x.ctx, ast.Load) and any(isinstance(y, ast.Name) and y.id == "starting_bus" for y in ast.walk(x.slice))
+        for x in ast.walk(g.data(n)["ast"]))]
+    incs = [n for n in g.nodes() if g.data(n)["kind"] == "stmt" and isinstance(g.data(n)["ast"], ast.AugAssign)
+            and dotted(g.data(n)["ast"].target) == "starting_bus"]
+    if not subs or not incs:
+        ctx.undecided("C12.series", "connectivity/search-bound", "cursor increment / row subscript not recognised", f.W())
+        return
+    bounds = [tn for tn in g.nodes() if g.data(tn)["kind"] in ("test", "loop") and g.data(tn)["expr"] and
+              any(isinstance(c, ast.Compare) and "starting_bus" in src(c) and any(k in src(c) for k in ("n", "Bus.n", "len(")) and
+                  not any(isinstance(o, (ast.In, ast.NotIn)) for o in c.ops) for c in ast.walk(g.data(tn)["expr"][0]))]
+    bad = []
+    for i in incs:
+        for s_ in subs:
+            p = g.path(i, s_, avoid=bounds)
+            if p is not None:
+                bad.append(g.fmt_path(p))
+    ctx.check(not bad, "C12.series", "connectivity/search-bound", "the start-bus cursor is tested against the bus count before it indexes the adjacency matrix",
+              "`starting_bus += 1` reaches `%s` without a bound test (path %s): when every remaining bus is isolated (e.g. all lines out of "
+              "service) the search indexes past the last bus" % (src(g.data(subs[0])["ast"]), bad[0] if bad else ""), f.W(subs[0]))
+
+
 def rule_recheck(ctx, repo):
     d = F.method(repo, "TDS", "do_switch", TDS)
     t = [tn for tn in d.g.nodes() if d.g.data(tn)["kind"] == "test" and Q.match("ret is True and self.config.check_conn == 1", d.g.data(tn)["ast"].test)]
@@ -347,7 +375,7 @@ def rule_recheck(ctx, repo):
 def run(ctx):
     ctx.rule("C12.bus-deps", "dataflow (sentinel filter, pending changes, all-model merge) and cross-table exhaustiveness: every IdxParam(model='Bus') of every power-flow model is listed in bus_deps; "
              "listed fields exist; act() switches off exactly the found devices", 20)
-    ctx.rule("C12.series", "connectivity() edge table covers every model injecting into >= 2 buses with its own status/addresses; "
+    ctx.rule("C12.series", "island search cursor bounded; connectivity() edge table covers every model injecting into >= 2 buses with its own status/addresses; "
              "symmetric adjacency; degree test; results reset", 8)
     ctx.rule("C12.neutralise", "isolated-bus neutralisation ordering and Bus block layout assumption", 4)
     ctx.rule("C12.slack", "slack-count classification partitions N into {0, 1, >=2}; counter per island", 3)
@@ -359,4 +387,5 @@ def run(ctx):
     rule_series_table(ctx, repo, models)
     rule_neutralise(ctx, repo, models)
     rule_slack(ctx, repo)
+    rule_search_bounds(ctx, repo)
     rule_recheck(ctx, repo)
